@@ -81,6 +81,7 @@ type BlockPlan struct {
 	Txs            int       `json:"txs"`
 	Blobs          int       `json:"blobs"`
 	DefaultPayload bool      `json:"default_payload"` // bellatrix pre-merge: keep execution disabled
+	SlashSpan      int       `json:"slash_span,omitempty"` // 0: slashed headers/votes from the last two epochs; 1: from any past epoch (other side of fork upgrades); 2: also future epochs
 }
 
 // BuildInfo reports what the built block contains.
@@ -462,6 +463,12 @@ func (c *Chain) BuildBlock(slot uint64, plan *BlockPlan) (sbOut *refspec.SignedB
 		vi := cand[pr.n(len(cand))]
 		k := c.KeyOf[work.Validators[vi].Pubkey]
 		hs := slot - uint64(pr.n(int(minU(slot, 2*p.SLOTS_PER_EPOCH)+1)))
+		switch {
+		case plan.SlashSpan >= 1 && pr.pm(600):
+			hs = uint64(pr.n(int(slot) + 1)) // any past slot: the domain is the one of that slot's epoch
+		case plan.SlashSpan >= 2 && pr.pm(500):
+			hs = slot + 1 + uint64(pr.n(int(3*p.SLOTS_PER_EPOCH))) // headers of future slots are slashable too
+		}
 		h1 := refspec.BeaconBlockHeader{Slot: hs, ProposerIndex: vi, ParentRoot: pr.root(), StateRoot: pr.root(), BodyRoot: pr.root()}
 		h2 := h1
 		h2.BodyRoot = pr.root()
@@ -525,6 +532,12 @@ func (c *Chain) BuildBlock(slot uint64, plan *BlockPlan) (sbOut *refspec.SignedB
 			te := epoch
 			if epoch > 0 && pr.pm(400) {
 				te = epoch - 1
+			}
+			switch {
+			case plan.SlashSpan >= 1 && pr.pm(600):
+				te = uint64(pr.n(int(epoch) + 1))
+			case plan.SlashSpan >= 2 && pr.pm(500):
+				te = epoch + 1 + uint64(pr.n(3))
 			}
 			d1 = refspec.AttestationData{Slot: sp.StartSlotAtEpoch(te), Index: uint64(pr.n(2)), BeaconBlockRoot: pr.root(), Source: refspec.Checkpoint{Epoch: te / 2, Root: pr.root()}, Target: refspec.Checkpoint{Epoch: te, Root: pr.root()}}
 			d2 = d1
